@@ -14,19 +14,22 @@ import (
 // ---------------------------------------------------------------------------
 
 type Opt struct {
-	ID              int
-	Field           string
-	Short           rune
-	Long            string
-	T               TypeSpec
-	Defaults        []string
-	Env             string
-	EnvDelim        string
-	Required        bool
-	Optional        bool
-	OptionalValues  []string
-	Choices         []string
-	Base            int
+	ID             int
+	Field          string
+	Short          rune
+	Long           string
+	T              TypeSpec
+	Defaults       []string
+	Env            string
+	EnvDelim       string
+	Required       bool
+	Optional       bool
+	OptionalValues []string
+	Choices        []string
+	Base           int
+	// TruthText: the spelling of the required / optional / hidden marks ("" = the usual "true"/"yes"); any text
+	// other than "", "false", "no" and "0" - exactly so spelled - sets a mark
+	TruthText       string
 	NoUnquote       bool
 	Hidden          bool
 	ValueName       string
@@ -238,11 +241,19 @@ func (o *Opt) Tag() string {
 	if o.EnvDelim != "" {
 		tagKV(&sb, "env-delim", o.EnvDelim)
 	}
+	truthy := o.TruthText
+	if truthy == "" {
+		truthy = "true"
+	}
 	if o.Required && !o.Prog {
-		tagKV(&sb, "required", "true")
+		tagKV(&sb, "required", truthy)
 	}
 	if o.Optional {
-		tagKV(&sb, "optional", "yes")
+		if o.TruthText != "" {
+			tagKV(&sb, "optional", truthy)
+		} else {
+			tagKV(&sb, "optional", "yes")
+		}
 	}
 	for _, v := range o.OptionalValues {
 		tagKV(&sb, "optional-value", v)
@@ -259,7 +270,7 @@ func (o *Opt) Tag() string {
 		tagKV(&sb, "unquote", "false")
 	}
 	if o.Hidden && !o.Prog {
-		tagKV(&sb, "hidden", "true")
+		tagKV(&sb, "hidden", truthy)
 	}
 	if o.ValueName != "" {
 		tagKV(&sb, "value-name", o.ValueName)
